@@ -27,6 +27,10 @@ structure Lawful {P : Type} [AddCommGroup P] (ops : CryptoOps P) : Prop where
 i.e. the scalar `8·v mod l` applied to the point. Not part of the model of HEAD; kept to document the repaired defect. -/
 def derivePinned {P : Type} (ops : CryptoOps P) (v : Nat) (R : P) : P := ops.smul ((8 * v) % ops.l) R
 
+/-- glue (definitional): the separately written constructor models `deriveSender` / `deriveReceiver` are `derive` -/
+theorem deriveSender_eq_derive {P : Type} (ops : CryptoOps P) (r v : ℕ) (V R : P) :
+    deriveSender ops r V = derive ops r V ∧ deriveReceiver ops v R = derive ops v R := ⟨rfl, rfl⟩
+
 variable {P : Type} [AddCommGroup P]
 
 /-- scalar reduction is invisible on points killed by `l` -/
@@ -57,6 +61,21 @@ theorem derive_eq (a : ℕ) (B : P) : derive ops a B = 8 • (a • B) := by
   have h8 : Gen.mulFactor % ops.l = 8 := by
     have := L.l_gt; show 8 % ops.l = 8; exact Nat.mod_eq_of_lt this
   rw [h8, L.smul_eq, L.smul_eq]
+
+theorem mulFactor_mod : Gen.mulFactor % ops.l = 8 := by
+  have := L.l_gt; show 8 % ops.l = 8; exact Nat.mod_eq_of_lt this
+
+/-- `PrivateKey * &PublicKey` on the bytes of a point: the `expect` of `PublicKey::point()` does not fire and the result is the
+encoding of the multiple -/
+theorem mulKeyBytes_enc (a : ℕ) (B : P) : mulKeyBytes ops a (ops.enc B) = some (ops.enc (a • B)) := by
+  unfold mulKeyBytes; rw [L.dec_enc]; simp only [L.smul_eq]
+
+/-- the byte-level constructors on the encoding of ANY point: neither of the two `point()` calls panics, and `rv` is the encoding of
+8•(a•B) -/
+theorem deriveSenderBytes_enc (r : ℕ) (V : P) : deriveSenderBytes ops r (ops.enc V) = some (ops.enc (8 • (r • V))) := by
+  unfold deriveSenderBytes; rw [L.mulKeyBytes_enc, L.mulFactor_mod]; exact L.mulKeyBytes_enc 8 _
+theorem deriveReceiverBytes_enc (v : ℕ) (R : P) : deriveReceiverBytes ops v (ops.enc R) = some (ops.enc (8 • (v • R))) := by
+  unfold deriveReceiverBytes; rw [L.mulKeyBytes_enc, L.mulFactor_mod]; exact L.mulKeyBytes_enc 8 _
 
 /-- three doublings are multiplication by 8 -/
 theorem mul8_eq (X : P) : Spec.Sender.mul8 (specPrims ops) X = 8 • X := by
